@@ -157,14 +157,14 @@ package fastaio
 //@     invariant hdrs >= 0 && first == (hdrs == 0) && counter == ite(hdrs == 0, 0, hdrs - 1) && len(records) == counter
 //@     invariant len(seqBuffer) == gLen && implies(counter > 0, width == gWidth) && implies(hdrs == 0, gLen == 0)
 //@     invariant forall(j, 0, len(seqBuffer), isCode(seqBuffer[j]))
-//@     invariant [gapmode.buffer] forall(j, 0, len(seqBuffer), seqBuffer[j] != ite(hardGaps, 244, 4))
-//@     invariant [gapmode.records] forall(t, 0, counter, forall(j, 0, len(records[t].Seq), records[t].Seq[j] != ite(hardGaps, 244, 4)))
+//@     invariant [gapmode.buffer] forall(j, 0, len(seqBuffer), modeOK(seqBuffer[j], hardGaps))
+//@     invariant [gapmode.records] forall(t, 0, counter, forall(j, 0, len(records[t].Seq), modeOK(records[t].Seq[j], hardGaps)))
 //@     invariant forall(t, 0, counter, records[t].Idx == t && len(records[t].Seq) == gWidth && records[t].Count_A == 0 && records[t].Count_C == 0 && records[t].Count_G == 0 && records[t].Count_T == 0)
 //@   loop 2:
 //@     invariant len(records) == counter
 //@     invariant len(seqBuffer) + i == gLen && len(encodedLine) == len(line)
 //@     invariant forall(j, 0, i, isCode(encodedLine[j]) && encodedLine[j] == coding[line[j]])
-//@     invariant [gapmode.line] forall(j, 0, i, encodedLine[j] != ite(hardGaps, 244, 4))
+//@     invariant [gapmode.line] forall(j, 0, i, modeOK(encodedLine[j], hardGaps))
 //@     do-end gLen++
 //@   after call:Bytes#1: do if len(line) > 0 && line[0] == '>' { hdrs++ }
 //@   before append#1: assert [record] fr.Idx == hdrs - 2 && len(fr.Seq) == gLen && forall(j, 0, len(fr.Seq), isCode(fr.Seq[j]))
@@ -183,7 +183,7 @@ package fastaio
 //@   ensures [idx] implies(result2 == nil, forall(t, 0, len(result1), result1[t].Idx == t && result1[t].Count_A == 0 && result1[t].Count_C == 0 && result1[t].Count_G == 0 && result1[t].Count_T == 0))
 //@   ensures [error.empty] implies(result2 != nil, len(result1) == 0)
 //@   # C03: the records are encoded with the table the hardGaps argument selects (the soft table never yields 4, the hard table never 244)
-//@   ensures [gapmode] implies(result2 == nil, forall(t, 0, len(result1), forall(j, 0, len(result1[t].Seq), result1[t].Seq[j] != ite(hardGaps, 244, 4))))
+//@   ensures [gapmode] implies(result2 == nil, forall(t, 0, len(result1), forall(j, 0, len(result1[t].Seq), modeOK(result1[t].Seq[j], hardGaps))))
 
 //@ func ReadAlignment
 //@   modifies chnl, cErr, cdone
